@@ -194,6 +194,12 @@ def gsplit_corr(ctx, rng, name='_GlobSplit.split parts (Unix rules)'):
           F('PATHNAME', 'EXTMATCH', 'NEGATE', 'MINUSNEGATE', 'MATCHBASE', 'GLOBSTARLONG'), F('PATHNAME', 'GLOBSTARLONG', 'EXTMATCH', 'MATCHBASE')]
     res = corr.corr_gsplit(pats, fs)
     ctx.corr(name, res)
+    # a splitter that raises anything but the documented ValueError on some pattern is a failing input by itself
+    for d in res.get('disagreements', []):
+        if str(d.get('impl', '')).startswith('EXC '):
+            ctx.counterexample('glob._GlobSplit(%r, %s).split() raises %s (globbing with this pattern raises an undocumented error)' % (
+                d.get('pattern'), d.get('flag_names', d.get('flags')), d['impl'][4:]), {'pattern': d.get('pattern'), 'flags': d.get('flag_names', d.get('flags')), 'error': d['impl'][4:]})
+            break
     return res
 
 
